@@ -296,6 +296,7 @@ Proof.
     cbn [spec_enc tsize no_handles].
   - (* scalar *) rewrite scalar_enc_length. split; [lia|intros; lia].
   - (* string *)
+    apply andb_prop in Hv. destruct Hv as [_ Hv].
     rewrite nlen_cons, nlen_app, uint_enc_length, raw_bytes_len, N2Nat.id.
     + split; [lia|intros; lia].
     + eapply forallb_impl; [|exact Hv]. intros x Hx; destruct x; try discriminate; reflexivity.
@@ -339,7 +340,8 @@ Proof.
     match goal with |- context [_ + ?f kvs] => set (B := f kvs) end.
     set (A := flat_map _ kvs).
     assert (G : nlen A <= B /\ (no_handles t1 && no_handles t2 = true -> nlen A = B)); [|destruct G as [G1 G2]; split; [lia|intros Hn; specialize (G2 Hn); lia]].
-    subst A B. induction kvs as [|[k x] kvs IH]; cbn [forallb flat_map] in *.
+    subst A B. apply andb_prop in Hv. destruct Hv as [_ Hv].
+    induction kvs as [|[k x] kvs IH]; cbn [forallb flat_map] in *.
     + split; [cbn; lia|intros; cbn; lia].
     + apply andb_prop in Hv. destruct Hv as [Hkx Hr]. apply andb_prop in Hkx.
       destruct Hkx as [Hk Hx]. cbn [fst snd] in *.
@@ -406,8 +408,9 @@ Proof.
     apply (writes_seq view can); [apply writes_u64, A|apply writes_writen, A].
   - (* seq *)
     apply andb_prop in Hv. destruct Hv as [Hlen Hv].
+    apply andb_prop in Hlen. destruct Hlen as [Hlen _].
     assert (Hl : match c with CLBuf _ cap _ unb => negb unb && (cap <? nlen vs) | _ => false end = false).
-    { destruct c as [|ca n|ca cap sk unb]; auto. cbn in Hlen. fold (nlen vs) in Hlen.
+    { destruct c as [|ca n|ca cap sk unb]; auto. cbn in Hlen.
       destruct unb; cbn in *; auto. apply N.ltb_ge. apply N.leb_le. exact Hlen. }
     rewrite Hl. clear Hl Hlen.
     destruct (raw_kind t) as [[w sg]|] eqn:Ek; cbn [tl].
@@ -443,6 +446,7 @@ Proof.
   - apply IHt; auto.
   - (* map *)
     apply (writes_seq view can); [apply writes_u64, A|].
+    apply andb_prop in Hv. destruct Hv as [_ Hv].
     induction kvs as [|[k x] kvs IH]; cbn [flat_map forallb] in *.
     + apply writes_nil.
     + apply andb_prop in Hv. destruct Hv as [Hkx Hr]. apply andb_prop in Hkx.
